@@ -37,6 +37,7 @@ ENTRY_ITEMS = [[0, 2, 1, 3, 4], [1, 1, 2, 4]]
 
 def units(tier):
     out = []
+    out.append({'fam': 'sharedlist'})
     out.append({'fam': 'entry'})
     L = 8 if tier == 'quick' else 10
     nt = 8 if tier == 'quick' else 16
@@ -63,6 +64,9 @@ def units(tier):
 
 
 def cases(unit):
+    if unit.get('fam') == 'sharedlist':
+        yield {'fam': 'sharedlist'}
+        return
     if unit.get('fam') == 'entry':
         # the operator reached through the `sources=` entry point of with_store: two live sources share one store
         for si in range(len(ENTRY_SPECS)):
@@ -117,6 +121,13 @@ def viol(fam, sym, detail):
 
 
 def run_case(case, acc):
+    if case.get('fam') == 'sharedlist':
+        # one list object used as the pipeline of two operators
+        import rxsci as rs
+        d = harness.shared_list_problem(lambda L: rs.data.split(lambda x: x % 2, L), lambda L: rs.data.split(lambda x: x // 3, L), [0, 2, 1, 3, 4, 5, 7])
+        acc.evals += 3
+        acc.count('shared_pipeline_lists')
+        return [viol('sharedlist', 'pipeline-list-shared-by-two-operators', d)] if d else []
     if case.get('fam') == 'entry':
         specs = [ENTRY_SPECS[case['spec']], ENTRY_OTHER]
         acc.evals += 1
